@@ -28,7 +28,7 @@ ASSUMPTIONS = [
 STRIDES = {"quick": 64, "thorough": 512}
 MAXSIZE = {"quick": 4, "thorough": 5}
 NRANDOM = {"quick": 12000, "thorough": 200000}
-MALFORMED = 40
+MALFORMED = 48
 
 
 def EXHAUSTIVE(tier):
@@ -245,6 +245,8 @@ BAD = [
     "zz", "a zz", "(a", "a)", "a{", "a{2", "a{2,", "a{,2}", "a |", "| a", "a | | b", "()", "a (", "a{x}", "+", "a + + (", "a text",
     "text a", "i a", "g inline", "(a | text)", "a{2,3", "a b)", "(a b", "a ,", "a }", "{2}", "a{}", "r", "r a", "a r b", "r+",
     "text+", "j", "j text", "text j+", "(r | r) a", "a (r)", "text{2}", "r{1,2}",
+    # unknown names that are part of a declared name or group string
+    "gx", "a gx", "xx", "ggxx", "gg gx", "nlin", "ext", "inlin+",
 ]
 
 
